@@ -285,7 +285,8 @@ Section Bounds.
     fcntl_result K W max_fd fd fl r = r /\ ioctl_result K W max_fd fd fl r = r.
   Proof.
     unfold all_checked. intros H fd fl r Hr. repeat (apply andb_prop in H as [H ?]).
-    unfold fcntl_result, ioctl_result, fcntl_intercepts, ioctl_intercepts. rewrite H0, H1, Hr. auto.
+    unfold fcntl_result, ioctl_result, fcntl_intercepts, ioctl_intercepts. rewrite H0, H1, Hr.
+    rewrite andb_false_r. auto.
   Qed.
 
   (* a descriptor number in range that is not open/managed (byte 0 after close) *)
@@ -302,10 +303,10 @@ Section Bounds.
   Proof. intros H fd. unfold close_sites, site. rewrite H. cbn. auto. Qed.
   Lemma unchecked_fcntl : bc_fc K = false -> forall fd fl,
     In (FdInfo, fd) (fcntl_sites K max_fd fd fl) /\
-    (fc_managed K = false -> forall r, fcntl_result K W max_fd fd fl r = ROk 0).
+    (fc_managed K = false -> fc_tracks K = false -> forall r, fcntl_result K W max_fd fd fl r = ROk 0).
   Proof.
     intros H fd fl. unfold fcntl_sites, fcntl_result, fcntl_intercepts. rewrite H. split; [cbn; auto|].
-    intros M r. rewrite M. reflexivity.
+    intros M T r. rewrite M, T. reflexivity.
   Qed.
   Lemma unchecked_ioctl : bc_io K = false -> forall fd fl,
     In (FdInfo, fd) (ioctl_sites K max_fd fd fl) /\
@@ -427,7 +428,7 @@ Lemma unchecked_refuted (K : bcheck) (max_fd : Z) :
   all_checked K = false ->
   exists p, In p (all_sites K max_fd (-1) 0) /\ in_range max_fd (snd p) = false.
 Proof.
-  destruct K as [a b c d e f g]. unfold all_checked, all_sites, close_sites, fcntl_sites, ioctl_sites, sb_sites, site.
+  destruct K as [a b c d e f g h]. unfold all_checked, all_sites, close_sites, fcntl_sites, ioctl_sites, sb_sites, site.
   cbn [bc_sb bc_cl bc_fdclosed bc_fc bc_io].
   destruct a, b, c, d, e; cbn; try discriminate; intros _; eexists; (split; [left; reflexivity|reflexivity]).
 Qed.
